@@ -1320,6 +1320,23 @@ func collectEffects(P *Program, f *ssa.Function, env map[ssa.Value]string, guard
 				continue
 			}
 			cal := cc.StaticCallee()
+			// the same writer called on a concrete node (`InboundNode().AddCount(...)`, a promoted method of the embedded
+			// BaseStatNode) instead of through the StatNode interface
+			if cal != nil && writer[cal.Name()] && cal.Signature.Recv() != nil && fnPkgPath(cal) == modPath+"/core/stat" && len(cc.Args) > 0 && !cc.IsInvoke() {
+				e := effect{method: cal.Name(), guards: all, inLoop: loops[b], pos: ci.Pos()}
+				withPathEnv(env, func() {
+					e.recv = strings.TrimSuffix(accessPath(cc.Args[0]), ".BaseStatNode")
+					for _, a := range cc.Args[1:] {
+						if _, isC := a.(*ssa.Const); isC {
+							e.args = append(e.args, constArgName(a))
+						} else {
+							e.args = append(e.args, accessPath(a))
+						}
+					}
+				})
+				*out = append(*out, e)
+				continue
+			}
 			if cal == nil || depth <= 0 || cal.Blocks == nil || fnPkgPath(cal) != fnPkgPath(f) {
 				continue
 			}
